@@ -231,11 +231,60 @@ def run_trace(engine, trace: dict, focus: str) -> dict:
 _ENGINE = None
 
 
+def run_isolated(fn, args, timeout=None):
+    """Run fn(*args) in a freshly forked child and return ("ok", result) or ("err", text).
+
+    The child starts from the caller's state, which -- for pool workers and for the parent of a check -- has imported
+    the library but never executed any of it: whatever a run leaves behind in module globals, class attributes or caches
+    of the code under test dies with the child and cannot reach another block (or the shrinker, or the next check)."""
+    mp = multiprocessing.get_context("fork")
+    r, w = mp.Pipe(duplex=False)
+
+    def target(conn):
+        try:
+            conn.send(("ok", fn(*args)))
+        except BaseException:  # noqa
+            try:
+                conn.send(("err", traceback.format_exc()[-1500:]))
+            except Exception:
+                pass
+        finally:
+            conn.close()
+            os._exit(0)
+    p = mp.Process(target=target, args=(w,))
+    p.start()
+    w.close()
+    try:
+        if r.poll(timeout):
+            status, out = r.recv()
+        else:
+            status, out = "err", f"no result within {timeout} s"
+    except (EOFError, OSError) as e:
+        status, out = "err", f"child process died without a result ({e!r})"
+    finally:
+        r.close()
+    p.join(2)
+    if p.is_alive():
+        p.kill()
+        p.join(2)
+    return status, out
+
+
 def _worker_block(args):
+    """Pool worker entry: the block runs in a forked child of this (clean) worker process."""
+    ks = args[4]
+    status, out = run_isolated(_block_body, (args,), timeout=1500)
+    if status == "ok":
+        return out
+    return [{"k": ks[0], "harness_error": f"block {ks[0]}..{ks[-1]} did not complete: {out}", "violations": [], "counters": {},
+             "faults": {}, "probes": {}, "sig": "", "nontrivial": False, "steps": 0, "digest": "", "n_events": 0, "wall": 0.0}]
+
+
+def _block_body(args):
     engine_name, seed, tier, focus, ks, double = args
     from engines import get_engine
     engine = get_engine(engine_name)
-    faulthandler.dump_traceback_later(600, exit=True)
+    faulthandler.dump_traceback_later(1200, exit=True)
     out = []
     try:
         for k in ks:
@@ -298,8 +347,15 @@ def explore(engine_name: str, focus: str, tier: str, seed: int, n_runs: int, bud
             if nxt >= len(blocks):
                 return False
             b = blocks[nxt]
+            try:
+                f = ex.submit(_worker_block, (engine_name, seed, tier, focus, b, double))
+            except Exception as e:       # the pool is broken (a worker was killed): stop dispatching, keep what we have
+                results.append({"k": b[0], "harness_error": f"cannot dispatch block {b[0]}..{b[-1]}: {e!r}",
+                                "violations": [], "counters": {}, "faults": {}, "probes": {}, "sig": "",
+                                "nontrivial": False, "steps": 0, "digest": "", "n_events": 0, "wall": 0.0})
+                nxt = len(blocks)
+                return False
             nxt += 1
-            f = ex.submit(_worker_block, (engine_name, seed, tier, focus, b, double))
             pending[f] = b
             return True
         # keep the queue short so that a wall-clock cap stops dispatching promptly
@@ -320,6 +376,51 @@ def explore(engine_name: str, focus: str, tier: str, seed: int, n_runs: int, bud
         truncated = nxt < len(blocks)
     results.sort(key=lambda r: r["k"])
     return results, truncated
+
+
+def generate_trace(engine, seed, tier, focus, k):
+    rng = derive_rng(seed, engine.NAME, k)
+    if getattr(engine, "USES_INDEX", False):
+        return engine.generate(rng, tier, focus, k)
+    return engine.generate(rng, tier, focus)
+
+
+def run_sequence(engine_name, prefix, trace, focus, repeat=1):
+    """Execute the prefix traces (results discarded) and then `trace` (repeat times) in THIS process; returns the list of
+    results of the executions of `trace`.  Used for violations that need state left behind by earlier runs."""
+    from engines import get_engine
+    engine = get_engine(engine_name)
+    for t in prefix:
+        run_trace(engine, t, focus)
+    return [run_trace(engine, trace, focus) for _ in range(repeat)]
+
+
+def sequence_fails(engine_name, prefix, trace, focus, target, repeat=1):
+    status, out = run_isolated(run_sequence, (engine_name, prefix, trace, focus, repeat), timeout=600)
+    if status != "ok":
+        return False
+    return any((v["property"], v["clause"]) == target for r in out if not r["harness_error"] for v in r["violations"])
+
+
+def shrink_prefix(engine_name, prefix, trace, focus, target, repeat=1, max_s=90.0):
+    """ddmin over the list of earlier runs a violation needs."""
+    t0 = time.time()
+    best = list(prefix)
+    chunk = max(1, len(best) // 2)
+    tried = 0
+    while chunk >= 1 and best and time.time() - t0 < max_s:
+        i = 0
+        changed = False
+        while i < len(best) and time.time() - t0 < max_s:
+            cand = best[:i] + best[i + chunk:]
+            tried += 1
+            if sequence_fails(engine_name, cand, trace, focus, target, repeat):
+                best, changed = cand, True
+            else:
+                i += chunk
+        if not changed:
+            chunk //= 2
+    return best, tried
 
 
 # --------------------------------------------------------------------------
@@ -400,13 +501,19 @@ def shrink(engine, trace: dict, focus: str, target: tuple, max_s: float = 60.0):
 # --------------------------------------------------------------------------
 
 def write_replay(prop: str, seed: int, k: int, engine_name: str, focus: str, minimised: dict,
-                 original: dict, violation: dict) -> str:
+                 original: dict, violation: dict, prefix=None, repeat=1) -> str:
     d = os.environ.get("VERIF_REPLAY_DIR") or os.path.join(VERIF_DIR, "replays")
     os.makedirs(d, exist_ok=True)
     path = os.path.join(d, f"{prop}-s{seed}-r{k}.json")
     with open(path, "w") as f:
-        json.dump({"property": prop, "engine": engine_name, "focus": focus, "seed": seed, "run": k,
-                   "violation": violation, "trace": minimised, "unminimised_trace": original}, f)
+        rep = {"property": prop, "engine": engine_name, "focus": focus, "seed": seed, "run": k,
+               "violation": violation, "trace": minimised, "unminimised_trace": original}
+        if prefix is not None:
+            # runs that must be executed first, in this order, in the same process: the violation needs what they leave
+            # behind in the code under test (module-level state)
+            rep["prefix"] = prefix
+            rep["repeat"] = repeat
+        json.dump(rep, f)
     return path
 
 
